@@ -2,7 +2,7 @@
     weighted tensors with garbage under the mask. *)
 From Coq Require Import List NArith ZArith Bool Arith QArith String.
 From Leaspy Require Import Base.Atoms Masked.Weighted Masked.Observed Masked.Pipeline Masked.Examples Masked.Source Masked.SourceProofs
-     Masked.SourceTie Masked.NoiseStd.
+     Masked.SourceTie Masked.Saem Masked.NoiseStd Masked.NoiseStdTie.
 From LeaspyGen Require Import GenC06.
 Import ListNotations.
 Local Close Scope Q_scope.
@@ -91,4 +91,28 @@ Example ex_check_noise_std_case :
   check_noise_std_case (false, [2; 1; 2], [Fin 1; NaN; Fin 2; Fin 3], [1; 0; 1; 1]%N, [Fin 0; PInf; Fin 2; Fin 5], tol5,
                         ObsSqrt [Fin (1625096535740409 # 562949953421312)]) = false /\
   check_noise_std_case (false, [2; 1; 2], [Fin 1; NaN; Fin 2; Fin 3], [1; 0; 1; 1]%N, [Fin 0; PInf; Fin 2; Fin 5], tol5, ObsRefused) = false.
+Proof. repeat split; vm_compute; reflexivity. Qed.
+
+(** the two update rules AS TRANSLATED, executed on the state statistics and the collected statistics of the garbage example:
+    sqrt(5/3), resp. (sqrt(1/2), sqrt(4)); on the F3 witness (variance 0): LeaspyConvergenceError *)
+Definition run_rule (diagonal : bool) (y : wt) (model : tensor atom) : sres sval :=
+  match bind (if diagonal then y_L2_n_obs_per_ft y else y_L2_n_obs y) (fun p => bind (collect y model) (fun s => Ok (p, s))) with
+  | Ok ((l2, n), s) =>
+      if diagonal
+      then call aadd src_diagonal_noise_std_update
+                [VNone; VDict [("y_L2_per_ft"%string, VTen l2); ("n_obs_per_ft"%string, VWgt n)]; VWT (s_yxm s); VTen (s_mxm s)]
+      else call aadd src_scalar_noise_std_update
+                [VNone; VDict [("y_L2"%string, VTen l2); ("n_obs"%string, VWgt n)]; VWT (s_yxm s); VTen (s_mxm s)]
+  | Err _ => SStuck
+  end.
+
+Definition sqrt_of_is (r : sres sval) (l : list atom) : bool :=
+  match r with SOk (VSqrtOf v) => list_eqb atom_same (to_flat v) l | _ => false end.
+
+Example ex_gen_noise_rules :
+  sqrt_of_is (run_rule false ex_y_nan ex_model_pinf) [Fin (5 # 3)] = true /\
+  sqrt_of_is (run_rule false ex_y_ninf ex_model_nan) [Fin (5 # 3)] = true /\
+  sqrt_of_is (run_rule true ex_y_nan ex_model_pinf) [Fin (1 # 2); q 4] = true /\
+  run_rule false ex_w_y w_model_a = SExc exc_convergence /\
+  run_rule true ex_w_y w_model_b = SExc exc_convergence.
 Proof. repeat split; vm_compute; reflexivity. Qed.
